@@ -126,14 +126,10 @@ func derShape(shape string, r, s *big.Int, rng interface{ Intn(int) int }) []byt
 	return out
 }
 
-// keyShape groups shapes that are one failing pattern.
-func keyShape(s string) string {
-	switch s {
-	case "trailing1", "trailing_long":
-		return "trailing"
-	}
-	return s
-}
+// keyShape names the failing pattern of a case (the shape itself: a sequence
+// with one trailing byte inside the 72-byte limit and one beyond the limit
+// are different patterns).
+func keyShape(s string) string { return s }
 
 var ysmallPoint *pt
 
@@ -338,6 +334,7 @@ func parseCase(ctx *vrun.Ctx, c, e tla.Value) {
 	verdict := e.F("verdict").Str()
 	label := fmt.Sprintf("%s|%s|%s|%s|%s|%d", parser, shape, c.F("rc").Str(), c.F("sc").Str(), c.F("xc").Str(), inst)
 	ctx.Distinct("parse|" + parser + "|" + shape + "|" + c.F("rc").Str() + "|" + c.F("sc").Str() + "|" + c.F("xc").Str())
+	sampled := false
 	key := func(kind string) string { return "parse:" + parser + ":" + keyShape(shape) + ":" + kind }
 	_ = key
 	replay := func(b []byte) map[string]any {
@@ -345,6 +342,11 @@ func parseCase(ctx *vrun.Ctx, c, e tla.Value) {
 	}
 	judge := func(b []byte, accepted bool, err error) bool {
 		ctx.AddEval(1)
+		if !sampled && inst == 1 && ((parser == "ecdsa.lax" && shape == "r_pad" && c.F("rc").Str() == "hi" && c.F("sc").Str() == "half") ||
+			(parser == "btcec.pub" && shape == "hybrid_bad" && c.F("xc").Str() == "onc")) {
+			sampled = true
+			ctx.Sample(map[string]any{"spec": "SigParse", "case": c.Go(), "expect": e.Go(), "bytes": hx(b), "real_parser_accepted": accepted})
+		}
 		switch {
 		case verdict == "accept" && !accepted:
 			ctx.Violation(key("rejected"), fmt.Sprintf("%s rejects %x (%v); the defining rules admit it (case %s)", parser, b, err, label), replay(b))
